@@ -3,7 +3,7 @@
    (what the code does) and C08/Spec.v (what a valid file is; wf_state). *)
 From Coq Require Import List NArith ZArith Bool String Ascii Permutation.
 From T4V Require Import Base.Str C08.Model C08.Spec C08.ProofsSets C08.ProofsWrite C08.ProofsPrune
-     C08.ProofsTail C08.ProofsParse C08.Check C08.ProofsRefute.
+     C08.ProofsTail C08.Check C08.ProofsRefute.
 Import ListNotations.
 
 (* VolumeT4.__str__: for EVERY volume (no hypothesis), each declared count equals the
@@ -118,18 +118,6 @@ Theorem C08_bc_defined : forall (E : Type) (ren : option (list (Z * Z))) (w : ws
   end.
 Proof. intros E. exact bc_defined. Qed.
 Print Assumptions C08_bc_defined.
-
-(* text level, partial: the token stream VolumeT4.__str__ emits for a volume line (the SAME
-   volu_tokens the tied printer print_volu joins with blanks) is read back by a count-driven
-   reader — each keyword followed by its count and then exactly that many items — as the
-   line it came from.  Missing for the full parse_t4 (print_t4 f) = Some f: the character
-   level (decimal rendering of numbers, splitting at blanks, comments) and the SURF /
-   COMPOSITION / GEOMCOMP / BOUNDARY_CONDITION blocks *)
-Theorem C08_print_parse_roundtrip_partial : forall (k : Z) (v : volume),
-  let l := volu_line_of k v in
-  read_volu (volu_tokens l) = Some (vl_plus l, vl_minus l, vl_op l, vl_fictive l).
-Proof. exact volu_line_of_roundtrip. Qed.
-Print Assumptions C08_print_parse_roundtrip_partial.
 
 (* ---- open defects: a composition that is named but not written.  The hypothesis cell_named
    (s0_cells / ws_cells) of the theorems above cannot be dropped: with closed tables, a cell
